@@ -1,7 +1,16 @@
 """C14 — numeric layout conversions are exact / correctly rounded on their whole domain.
 
-NOT decided: that the mantissa tricks round correctly inside their window (bit-level floating-point semantics over a
-value range).  Decided (structural, necessary conditions):
+Decided:
+ (d) the contract itself, for every input of the window (E6, spqa/fpbits.py + spqa/convspec.py): for each conversion,
+     dimensions on both sides of the vector threshold, divisors 2^j, bounds / overheads and both CPU paths, the kernel
+     selected by the library's constructor is evaluated symbolically and its output-lane expression is analysed over the
+     whole magnitude window, partitioned by sign and binade with the mantissa as an integer variable (about 2 000
+     partitions per configuration, refined by bisection where an operation is not uniform): int64/int32 -> double is the
+     integer (times 2^-32 for the torus); double -> int64 is an integer within 1/2 of x/d for |x/d| < 2^min(bound,52);
+     complex -> torus32 is within 1/2 of x*2^32/d modulo 2^32 for |x/d| < 2^18; double -> torus is congruent to x/d
+     modulo 1 within 2^(overhead-50) and lies in [-1/2, 1/2] (up to that tolerance) for |x/d| <= 2^overhead.
+     Assumes round-to-nearest-even and no NaN/infinity inputs.
+ and the structural conditions:
  (a) constant construction: in every conversion-table constructor, instantiated on the *whole* parameter domain the
      constructor itself admits (every log2overhead / log2bound value that passes its validation, every dimension
      m = 2^k <= 65536, divisors 2^j), no integer sub-expression that feeds a magic constant is computed in a narrow
@@ -67,9 +76,103 @@ def window_selections(L, ms, cpus=('accel',)):
     return out, n
 
 
+def _contract_job(args):
+    import sys
+    import threading
+    idx, cpu, tier = args
+    out = {}
+
+    def work():
+        from ..convspec import configurations, lanes_of, specs
+        from ..fpbits import analyse
+        from ..kernels import KBox
+        try:
+            name, sh, win, parts, want, inbits, check, text = configurations(tier)[idx]
+            spec, inbuf, kind = specs()[name]
+            r = KBox(ctx.lib()).instantiate(name, spec, {k: (float(v) if k == 'd' else v) for k, v in sh.items()}, cpu, expand='values')
+            if r.status != 'ok':
+                out['r'] = ('status', 'constructor or call %s' % (r.status,), 0, 0)
+                return
+            lanes, err = lanes_of(r, 'r', inbuf)
+            if err:
+                out['r'] = ('broke', err, 0, 0)
+                return
+            np_ = ns = 0
+            for root, off in lanes.items():
+                A = analyse(root, parts, want, inbits, check)
+                np_ += A.partitions
+                ns += A.singletons
+                if A.unknown:
+                    out['r'] = ('broke', 'output +%d: %s' % (off, A.unknown), np_, ns)
+                    return
+                if A.violation:
+                    out['r'] = ('viol', 'output +%d: %s' % (off, A.violation), np_, ns)
+                    return
+            out['r'] = ('ok', '%d lane expression(s)' % len(lanes), np_, ns)
+        except (Unsupported, NeedEnum) as e:
+            out['r'] = ('broke', str(e), 0, 0)
+        except Exception as e:  # noqa
+            out['r'] = ('broke', 'internal error: %r' % (e,), 0, 0)
+
+    sys.setrecursionlimit(200000)
+    threading.stack_size(256 * 1024 * 1024)
+    t = threading.Thread(target=work)
+    t.start()
+    t.join()
+    return out.get('r', ('broke', 'worker died', 0, 0))
+
+
+def contracts(R, tier):
+    from concurrent.futures import ProcessPoolExecutor
+    from ..convspec import configurations
+    from ..fpbits import analyse, f64_partitions, pow2
+    from ..convspec import chk_to_int
+    from ..values import sym
+    from fractions import Fraction as Fr
+    cfgs = configurations(tier)
+    jobs = [(i, cpu, tier) for i in range(len(cfgs)) for cpu in ('accel', 'generic')]
+    with ProcessPoolExecutor(max_workers=14) as ex:
+        results = list(ex.map(_contract_job, jobs, chunksize=1))
+    agg = {}
+    nparts = 0
+    for (i, cpu, _), (st, msg, np_, ns) in zip(jobs, results):
+        name, sh, win, parts, want, inbits, check, text = cfgs[i]
+        nparts += np_
+        a = agg.setdefault((name, cpu), {'n': 0, 'parts': 0, 'bad': None, 'text': text})
+        a['n'] += 1
+        a['parts'] += np_
+        shs = ', '.join('%s=%s' % (k, v) for k, v in sh.items())
+        if st == 'broke':
+            R.broke('%s(%s) [%s]: %s' % (name, shs, cpu, msg))
+        elif st in ('viol', 'status') and a['bad'] is None:
+            a['bad'] = ('%s, %s: %s' % (shs, win, msg), dict({k: str(v) for k, v in sh.items()}, cpu=cpu))
+    for (name, cpu), a in sorted(agg.items()):
+        subj = '%s [%s]' % (name, cpu)
+        if a['bad']:
+            R.ob('conversion-meets-its-contract-on-the-whole-window', subj, 'refuted', detail=a['bad'][0],
+                 key='%s:contract' % name, witness=a['bad'][1])
+        else:
+            R.ob('conversion-meets-its-contract-on-the-whole-window', subj, 'holds',
+                 detail='%s; %d configurations, %d partitions' % (a['text'], a['n'], a['parts']))
+    # canaries of the engine: the add-3*2^51 trick is exact on |x| < 2^50 and fails at the top of |x| < 2^52
+    X = sym('in', 'X', 0, 8)
+    trick = sym('add', 64, sym('and', 64, sym('fadd', X, float(3 << 51)), (1 << 52) - 1), (1 << 64) - (1 << 51))
+    good = analyse(trick, f64_partitions(pow2(50)), 'I', 64, chk_to_int(Fr(1)))
+    bad = analyse(trick, f64_partitions(pow2(52)), 'I', 64, chk_to_int(Fr(1)))
+    if good.violation or good.unknown:
+        R.broke('E6 negative control failed: %s' % (good.violation or good.unknown))
+    if not bad.violation:
+        R.broke('E6 canary did not fire (magic-constant trick beyond its window)')
+    R.extra['e6_canary'] = bad.violation
+    return len(jobs), nparts
+
+
 def run(tier):
     R = Report('C14', tier)
     L = ctx.lib()
+    nj, nparts = contracts(R, tier)
+    R.floor('conversion configurations analysed over their whole window', nj, 80)
+    R.floor('input partitions (sign x binade, refined) decided', nparts, 150000)
     ms = MS if tier == 'quick' else [1 << k for k in range(17)]
     ninst = 0
     for cname, mk, pname, dom in CTORS:
@@ -126,7 +229,7 @@ def run(tier):
                      detail='table.m = %d for constructor argument m = %d' % (fld['m'][2], fld['m'][0]), key='%s:m-field' % cname)
             else:
                 R.ob('table-stores-constructor-dimension', subj, 'holds', nontrivial=admitted > 0)
-    R.evaluations = ninst
+    R.evaluations = ninst + nparts
     R.floor('constructor instantiations', ninst, 3000)
     for k in WINDOWS:
         if L.fn(k) is None:
@@ -143,7 +246,8 @@ def run(tier):
     R.extra['canaries_fired'] = ['fx_c14_int_shift(30) -> narrow-overflow']
     R.extra['windows'] = {k: {'param': v[0], 'max': v[1], 'why': v[2]} for k, v in WINDOWS.items()}
     R.rules.append('evaluation = one constructor instantiation on a parameter tuple; obligation = (clause, constructor, cpu)')
-    R.assumptions += ['the rounding behaviour of the mantissa tricks inside their window is not decided (numeric)',
-                      'WINDOWS transcribes the kernels\' documented magnitude windows']
+    R.assumptions += ['IEEE-754 binary64, round-to-nearest-even, no NaN / infinity inputs; divisors and dimensions sampled '
+                      '(the expressions depend on them only through the constants the constructors compute)',
+                      'WINDOWS transcribes the kernels\' documented magnitude windows (clause b)']
     return R.finish('Exhaustive instantiation of the conversion-table constructors on their finite parameter domain: narrow-integer '
                     'overflow before widening, kernel selection against documented windows, stored dimension.')
